@@ -15,4 +15,10 @@ BroadcastComplete ==
 Dominates(b, a) == \A k \in Key : Ts(st[b][k]) >= Ts(st[a][k])
 PushDominates == [][\A a, b \in Node : (seen'[b] = seen[b] \cup FullState(a) /\ nops' = nops /\ a # b /\ st'[b] = ApplyAll(st[b], FullState(a)))
                         => \A k \in Key : Ts(st'[b][k]) >= Ts(st[a][k])]_vars
+\* ---- the merge is a join: order, duplication and grouping of updates with distinct timestamps cannot matter
+SmallEntries == [la : 0..3, ld : 0..3, v : {"x", "y"}, own : {"n1"}]
+Distinct(a, b) == Ts(a) # Ts(b)
+ASSUME \A o, a \in SmallEntries : Merge(Merge(o, a), a) = Merge(o, a)                                         \* idempotent
+ASSUME \A o, a, b \in SmallEntries : (Distinct(a, b) /\ Distinct(o, a) /\ Distinct(o, b)) => Merge(Merge(o, a), b) = Merge(Merge(o, b), a)   \* commutative
+ASSUME \A o, a \in SmallEntries : Ts(Merge(o, a)) >= Ts(o) /\ Ts(Merge(o, a)) >= Ts(a)                        \* inflationary
 =============================================================================
